@@ -319,15 +319,21 @@ func rNewFS() rFS {
 
 // rUniverse lists the paths that may exist in a pre-state (parents first); rCandidates the argument paths.
 func rUniverse() []string {
-	if verifParam("UNIVERSE") == 2 {
+	switch verifParam("UNIVERSE") {
+	case 2:
 		return []string{"a", "b", "a/a", "a/b", "b/a", "b/b"}
+	case 3: // a directory with two children (for partial-failure faults)
+		return []string{"a", "a/a", "a/b"}
 	}
 	return []string{"a", "b", "a/a"}
 }
 
 func rCandidates() []string {
-	if verifParam("UNIVERSE") == 2 {
+	switch verifParam("UNIVERSE") {
+	case 2:
 		return []string{".", "a", "b", "c", "a/a", "a/b", "a/c", "b/a", "c/c", "a/a/a", "a/a/c"}
+	case 3:
+		return []string{".", "a", "c", "a/a", "a/b", "a/c"}
 	}
 	return []string{".", "a", "b", "c", "a/a", "a/c", "c/c", "a/a/a", "a/a/c", "b/c"}
 }
